@@ -17,7 +17,7 @@ DESIGN_REF = "DESIGN.md section 6, C01"
 
 
 def correspondence(ctx):
-    pipeline.numeric_campaign(ctx, ["C01"], ("gf",), 30, 400, max_modes_quick=4, max_modes_thorough=5,
+    pipeline.numeric_campaign(ctx, ["C01"], ("gf",), 30, 400, near=4, max_modes_quick=4, max_modes_thorough=5,
                               trunc=False,
                               nontrivial=lambda meta, s: meta["modes"] >= 2)
 
